@@ -400,6 +400,55 @@ pub fn same_name_projects() -> Vec<Project> {
     ]
 }
 
+/// a package is its files together, whatever their order: whole-program compilation puts the entry
+/// file first, `build` sorts the files by path; items are used in a file that comes before (in one
+/// of the two orders) the file that declares them
+pub fn file_order_projects() -> Vec<Project> {
+    let mut v = Vec::new();
+    // (item kind, declaration, use) - the declaration goes to one file, the use to another
+    let pairs: [(&str, &str, &str, &str); 7] = [
+        ("trait", "trait Show { fn show(Self) -> string; }\nstruct W { k: int32 }\nimpl Show for W { fn show(self: W) -> string { \"w\" + int32_to_string(self.k) } }\nfn mkw() -> W { W { k: 4 } }\n", "fn used() -> string { let d: dyn Show = mkw(); Show::show(d) }\n", "w4\n"),
+        ("trait-and-impl-apart", "trait Show { fn show(Self) -> string; }\n", "struct W { k: int32 }\nimpl Show for W { fn show(self: W) -> string { \"w\" + int32_to_string(self.k) } }\nfn used() -> string { Show::show(W { k: 4 }) }\n", "w4\n"),
+        ("trait-bound", "trait Show { fn show(Self) -> string; }\nimpl Show for int32 { fn show(self: int32) -> string { \"i\" + int32_to_string(self) } }\n", "fn via[T: Show](x: T) -> string { Show::show(x) }\nfn used() -> string { via(4) }\n", "i4\n"),
+        ("struct", "struct W { k: int32 }\n", "fn used() -> string { let w = W { k: 4 }; \"w\" + int32_to_string(w.k) }\n", "w4\n"),
+        ("enum", "enum E { A, B(int32) }\n", "fn used() -> string { match B(4) { A => \"a\", B(k) => \"b\" + int32_to_string(k) } }\n", "b4\n"),
+        ("inherent-method", "struct W { k: int32 }\nimpl W { fn get(self: W) -> int32 { self.k } }\n", "fn used() -> string { let w = W { k: 4 }; \"w\" + int32_to_string(w.get()) }\n", "w4\n"),
+        ("function", "fn helper() -> int32 { 4 }\n", "fn used() -> string { \"h\" + int32_to_string(helper()) }\n", "h4\n"),
+    ];
+    for (kind, decl, usage, out) in pairs {
+        // the entry file is main.gom; `aaa.gom` sorts before it, `zzz.gom` after it
+        for (decl_file, use_file) in [("aaa.gom", "main.gom"), ("zzz.gom", "main.gom"), ("main.gom", "aaa.gom"), ("main.gom", "zzz.gom"), ("aaa.gom", "zzz.gom"), ("zzz.gom", "aaa.gom")] {
+            let mut files: Vec<(String, String)> = Vec::new();
+            let mut main = String::from("package Main\n\n");
+            if decl_file == "main.gom" {
+                main.push_str(decl);
+            }
+            if use_file == "main.gom" {
+                main.push_str(usage);
+            }
+            main.push_str("fn main() { string_println(used()) }\n");
+            files.push(("main.gom".into(), main));
+            for f in ["aaa.gom", "zzz.gom"] {
+                let mut t = String::from("package Main\n\n");
+                let mut any = false;
+                if decl_file == f {
+                    t.push_str(decl);
+                    any = true;
+                }
+                if use_file == f {
+                    t.push_str(usage);
+                    any = true;
+                }
+                if any {
+                    files.push((f.into(), t));
+                }
+            }
+            v.push(Project { name: format!("file-order-{}-declared-in-{}-used-in-{}", kind, decl_file.trim_end_matches(".gom"), use_file.trim_end_matches(".gom")), files, expected_stdout: Some(out.into()) });
+        }
+    }
+    v
+}
+
 /// what a package means must survive being written to and read back from its artifact files:
 /// float literals with up to 17 significant digits, and function bodies of growing length (one
 /// nesting level of the serialised IR per statement)
